@@ -393,6 +393,8 @@ var scenarios = []scenario{
 	// the waiter's TTL ends exactly when the window rolls over: expiry and hand-off race; a
 	// later arrival must still find the queue place free
 	{Name: "ttl-expiry-coincides-with-rollover", Quota: 1, QueueSize: 1, TTL: W, Arrivals: []arrival{{"A", 1, 0, 0}, {"B", 1, 0, 0}, {"C", 1, W + time.Millisecond, 0}}},
+	// after the coincidence the queue must still hold at most `queue size` waiters
+	{LessPre: true, Name: "ttl-expiry-coincides-with-rollover-then-two-arrivals", Quota: 1, QueueSize: 1, TTL: W, Arrivals: []arrival{{"A", 1, 0, 0}, {"B", 1, 0, 0}, {"C", 1, W + time.Millisecond, 0}, {"D", 1, W + 2*time.Millisecond, 0}}},
 	{Plugin: true, Name: "plugin-two-first-requests", Quota: 1, QueueSize: 2, TTL: 2 * W, Arrivals: []arrival{{"A", 1, 0, 0}, {"B", 1, 0, 0}}},
 	{Plugin: true, Name: "plugin-three-priorities", Quota: 1, QueueSize: 1, TTL: 2 * W, Arrivals: []arrival{{"A", 1, 0, 0}, {"lo", 2, time.Millisecond, 0}, {"hi", 0, 2 * time.Millisecond, 0}}},
 	// the remedy is re-configured from a 4 s window to a 1 s window between the first request
